@@ -212,3 +212,12 @@ Theorem C15_collapse_to_base_boundary_keeps_wf2 `{Sig} : forall E n ks pe e ne c
   wf2 n w'.
 Proof. exact halfcell_to_base_boundary_wf. Qed.
 Print Assumptions C15_collapse_to_base_boundary_keeps_wf2.
+
+(** The two half-cell routines of the edge collapse -- the programs the four collapse theorems above are about -- are,
+    verbatim, what tools/tr_kern.py regenerates from remeshing/collapse.rs on every run: an edit of either routine
+    changes Map2/GenKern.v and this theorem stops compiling. *)
+Theorem C15_collapse_halfcells_are_the_source `{Sig} :
+  (forall n ks b0d d b1d, gen_collapse_halfcell_to_midpoint n ks b0d d b1d = collapse_halfcell_to_midpoint n ks b0d d b1d) /\
+  (forall n ks d_pe d_e d_ne, gen_collapse_halfcell_to_base n ks d_pe d_e d_ne = collapse_halfcell_to_base n ks d_pe d_e d_ne).
+Proof. exact collapse_halfcells_are_the_source. Qed.
+Print Assumptions C15_collapse_halfcells_are_the_source.
